@@ -72,6 +72,49 @@ fn snapshot(idx: &searchlite_core::api::Index, case: &Case, limit: usize) -> Res
   Ok(Snapshot { contents, results })
 }
 
+/// Phrase queries that straddle the boundary between two values of a multi-valued text field (skipping
+/// blank members in between): positions across values are exactly what a rebuild from stored values
+/// has to reproduce. Derived from the plan's final document versions; at most 12.
+fn boundary_phrases(case: &Case) -> Vec<Value> {
+  let mut live: BTreeMap<String, &serde_json::Map<String, Value>> = BTreeMap::new();
+  for b in case.plan.batches.iter() {
+    for d in b.deletes.iter() {
+      live.remove(d);
+    }
+    for (id, body) in b.adds.iter() {
+      live.insert(id.clone(), body);
+    }
+  }
+  let word = |s: &str, last: bool| -> Option<String> {
+    let mut it = s.split(|c: char| !c.is_alphanumeric()).filter(|w| !w.is_empty());
+    let w = if last { it.next_back() } else { it.next() };
+    w.map(|w| w.to_lowercase())
+  };
+  let mut out = Vec::new();
+  for body in live.values() {
+    for t in case.schema.text.iter().filter(|t| t.indexed) {
+      let Some(Value::Array(vals)) = body.get(&t.name) else { continue };
+      let strs: Vec<&str> = vals.iter().filter_map(|v| v.as_str()).collect();
+      let solid: Vec<(usize, &str)> = strs.iter().enumerate().filter(|(_, s)| !s.trim().is_empty()).map(|(i, s)| (i, *s)).collect();
+      for pair in solid.windows(2) {
+        if let (Some(a), Some(b)) = (word(pair[0].1, true), word(pair[1].1, false)) {
+          let gap = pair[1].0 - pair[0].0; // > 1 when blank members sit in between
+          for slop in [0usize, gap.saturating_sub(1), gap] {
+            let q = json!({"type": "phrase", "field": t.name, "terms": [a, b], "slop": slop});
+            if !out.contains(&q) {
+              out.push(q);
+            }
+          }
+        }
+        if out.len() >= 12 {
+          return out;
+        }
+      }
+    }
+  }
+  out
+}
+
 /// does any live document hold an empty object / null member / empty array inside a nested value?
 fn has_droppable_nested(schema: &SchemaSpec, docs: &BTreeMap<String, Value>) -> bool {
   fn droppable(v: &Value, top: bool) -> bool {
@@ -117,6 +160,17 @@ impl Property for C14 {
   fn run(case: &Case, ctx: &Ctx) -> Outcome {
     let mut out = Outcome::new();
     out.evals = 1;
+    // the generated queries plus phrases derived from the documents themselves (deterministic in the case)
+    let extended = {
+      let mut c = case.clone();
+      let d = boundary_phrases(&c);
+      if !d.is_empty() {
+        out.class("boundary-phrases");
+      }
+      c.queries.extend(d);
+      c
+    };
+    let case = &extended;
     let scratch = Scratch::new("c14");
     let root = scratch.sub("idx");
     let storage = sut::make_storage(&root, case.storage);
